@@ -180,20 +180,27 @@ def stepRec (c : Rec) (r : R) : M R := do
     | "sr" =>
       let w ← argNat c.args 0
       let k ← argNat c.args 1
-      expect (w == (r.s.workerCount : Int)) s!"sr: worker count observed {w}, model {r.s.workerCount}"
+      -- repaired SetWorkerCount: len(workerMap) - workerExiting, read in the deciding critical section
+      expect (w == (r.s.live : Int)) s!"sr: workers not told to exit observed {w}, model {r.s.live} (len(workerMap) = {r.s.workerCount})"
       pure { r with swcRead := setAssoc r.swcRead c.thread (w, if k < 0 then 0 else k) }
     | "su" =>
       let n ← argNat c.args 0
-      expect ((r.s.workerCount : Int) ≤ n) "su: fewer workers than before"
-      let r ← ev (.swcUp (n.toNat - r.s.workerCount)) r
-      pure r
+      match r.swcRead.lookup c.thread with
+      | some (_, cnt) =>
+        expect ((r.s.live : Int) ≤ cnt) s!"su: the model shrinks here (live {r.s.live} > count {cnt})"
+        let r ← ev (.swcSet cnt.toNat) r
+        expect (n == (r.s.live : Int)) s!"su: workers after the resize observed {n}, model {r.s.live}"
+        pure r
+      | none => throw "su without sr"
     | "sd" =>
       let k ← argNat c.args 0
-      expect (0 < k) "sd: workerKill not positive"
       match r.swcRead.lookup c.thread with
-      | some (w, cnt) => expect (k == w - cnt) s!"sd: workerKill {k} is not workerCount - count = {w - cnt}"
+      | some (_, cnt) =>
+        expect ((r.s.live : Int) > cnt) s!"sd: the model does not shrink here (live {r.s.live} ≤ count {cnt})"
+        let r ← ev (.swcSet cnt.toNat) r
+        expect (k == r.s.kill) s!"sd: workerKill observed {k}, model {r.s.kill}"
+        pure r
       | none => throw "sd without sr"
-      ev (.swcDown (k.toNat - 1)) r
     | "sb" => do
       let r ← flush r
       let r ← ev .swcLock r
